@@ -2,20 +2,24 @@
 (* Trace validation and fault enumeration for C04.  One behaviour per (journal, front-end) run of the real recovery
    (e2fsck -y -E journal_only / e2fsck -fy / debugfs -w -R jr) recorded by harness/iotrace.so:
 
-     {"e":"load","kind":"c03", cfg, jsb, nr, fs0, log, hist}      abstract journal encoded into the image by gen/jbd2write.py
-     {"e":"load","kind":"obs", jsb0, nr, rfail, init, final, legal}      repository j_* image: blocks/versions named from the recorded run
-     {"e":"w","k":"blk"|"jsb"|"sb"|"log","b":id,"v":ver}          one pwrite/write, classified by location against a shadow image
-     {"e":"fsync"}                                                 a completed fsync/fdatasync
+     {"e":"load","kind":"c03", ext, cfg, jsb, nr, fs0, log, hist} abstract journal encoded into the image by gen/jbd2write.py;
+                                                                   ext = 1: the journal is on a device (image file) of its own
+     {"e":"load","kind":"obs", ext, jsb0, nr, rfail, init, final, legal} repository j_* image: blocks/versions named from the recorded run
+     {"e":"w","d":dev,"k":"blk"|"jsb"|"sb"|"log","b":id,"v":ver}  one pwrite/write on device dev (0 = filesystem image, 1 = journal image),
+                                                                   classified by (device, location) against a shadow image per device
+     {"e":"fsync","d":dev}                                         a completed fsync/fdatasync of device dev
      {"e":"crash","kept":[..],"img":{blk,jsb,sb},"obs":[..],"jstart":s,"nro":n,"diff":d,"torn":t,"sdiff":x}
                                                                    fault enumeration: the run was cut here, exactly the pending
-                                                                   writes `kept` (indexes into pend) reached the medium, the image
+                                                                   writes `kept` (indexes into pend, which holds the volatile writes
+                                                                   of BOTH devices in program order) reached their medium, the image(s)
                                                                    was rebuilt from the recorded payloads (img = its abstraction),
                                                                    the same front-end was run AGAIN on it; obs/jstart/nro = what
                                                                    it left, diff = number of blocks that differ from the result of
                                                                    the uninterrupted run outside the excluded fields
      {"e":"done","obs":[..],"jstart":s,"nro":n}                    end of the uninterrupted run
 
-   Every w / fsync line must be a device-level step of JournalRun (DevWrite with PhaseAllows, DevFsync); the invariants of
+   Every w / fsync line must be a device-level step of JournalRun (DevWrite with PhaseAllows on the device the location lives on,
+   DevFsync(d): only the pending writes of device d become durable); the invariants of
    JournalRun listed in the cfg are evaluated after every line, i.e. on every crash image of every prefix (product form).
    A crash line is accepted only if (a) the image the harness rebuilt is the crash image ImageOf(kept) the spec derives from
    its own pend, and (b) what the real re-run left equals RunAgainOf(that image) = Final, journal empty, flag clear, no other
@@ -60,6 +64,7 @@ TLoadC03 == /\ IsEvent("load") /\ Tr[l].kind = "c03"
                     IN rerr' = e /\ rfail' = (e # "")
                  /\ legal' = [b \in DOMAIN x.fs0 |-> LegalFromLog(cf, x.log, b)]
                  /\ dur' = [blk |-> x.fs0, jsb |-> (IF j.start = 0 THEN 0 ELSE 1), sb |-> x.nr, st |-> 0]
+                 /\ x.ext \in {0, 1} /\ ext' = (x.ext = 1)
             /\ pend' = <<>> /\ pc' = "trace" /\ Idle
 TLoadObs == /\ IsEvent("load") /\ Tr[l].kind = "obs"
             /\ LET x == Tr[l] IN
@@ -67,9 +72,14 @@ TLoadObs == /\ IsEvent("load") /\ Tr[l].kind = "obs"
                  /\ fin' = x.final /\ rerr' = (IF x.rfail = 1 THEN "recorded in s_state by the uninterrupted run" ELSE "") /\ rfail' = (x.rfail = 1)
                  /\ legal' = [b \in DOMAIN x.init |-> SeqSet(x.legal[b])]
                  /\ dur' = [blk |-> x.init, jsb |-> x.jsb0, sb |-> x.nr, st |-> 0]
+                 /\ x.ext \in {0, 1} /\ ext' = (x.ext = 1)
             /\ pend' = <<>> /\ pc' = "trace" /\ Idle
-TWrite == /\ IsEvent("w") /\ pc = "trace" /\ DevWrite(E(Tr[l].k, Tr[l].b, Tr[l].v)) /\ UNCHANGED <<uvars, pvars, rerr>>
-TFsync == /\ IsEvent("fsync") /\ pc = "trace" /\ DevFsync /\ UNCHANGED <<uvars, pvars, rerr>>
+DevName(d) == IF d = 0 THEN "fs" ELSE "jnl"
+\* a write is accepted only on the device its location lives on (journal superblock and log on the journal device iff ext)
+TWrite == /\ IsEvent("w") /\ pc = "trace" /\ Tr[l].d \in {0, 1} /\ DevName(Tr[l].d) = DevOf(Tr[l].k)
+          /\ DevWrite(E(Tr[l].k, Tr[l].b, Tr[l].v)) /\ UNCHANGED <<uvars, pvars, rerr>>
+TFsync == /\ IsEvent("fsync") /\ pc = "trace" /\ Tr[l].d \in {0, 1} /\ (Tr[l].d = 1 => ext)
+          /\ DevFsync(DevName(Tr[l].d)) /\ UNCHANGED <<uvars, pvars, rerr>>
 TCrash == /\ IsEvent("crash") /\ pc = "trace"
           /\ LET x == Tr[l]  S == SeqSet(x.kept)  img == ImageOf(S)  again == RunAgainOf(img) IN
                /\ S \subseteq All
@@ -83,7 +93,7 @@ TDone == /\ IsEvent("done") /\ pc = "trace"
          /\ Tr[l].obs = fin /\ Tr[l].jstart = 0 /\ Tr[l].nro = 0 /\ Cur.blk = fin
          /\ pc' = "done" /\ UNCHANGED <<dvars, uvars, plan, cache, i, todo, failed, image, crashes, rerr>>
 
-TraceInit == Init /\ l = 1 /\ rerr = "" /\ rfail = FALSE
+TraceInit == Init /\ l = 1 /\ rerr = "" /\ rfail = FALSE /\ ext = FALSE
 TraceNext == TLoadC03 \/ TLoadObs \/ TWrite \/ TFsync \/ TCrash \/ TDone
 TraceSpec == TraceInit /\ [][TraceNext]_tvars
 TraceAccepted == TLCGet("stats").diameter - 1 = Len(Tr)
